@@ -18,7 +18,7 @@ var zooTypes = map[string][]zf{
 	"Query": {{"title", "", ""}, {"count", "", ""}, {"ratio", "", ""}, {"flag", "", ""}, {"size", "", ""},
 		{"keeper", "Keeper", "keeper"}, {"keepers", "Keeper", ""}, {"animals", "Animal", ""}, {"things", "Thing", ""},
 		{"grid", "Cell", ""}, {"echo", "", "echo"}, {"tags", "", ""}, {"nums", "", ""}, {"find", "Keeper", "find"}, {"boss", "Keeper", ""},
-		{"ghost", "", ""}, {"relay", "", "relay"}, {"pick", "Thing", "pick"}, {"join", "", "join"}, {"span", "", "span"}},
+		{"ghost", "", ""}, {"relay", "", "relay"}, {"pick", "Thing", "pick"}, {"join", "", "join"}, {"span", "", "span"}, {"chief", "Keeper", ""}},
 	"Keeper": {{"name", "", ""}, {"age", "", ""}, {"pets", "Animal", ""}, {"friend", "Keeper", ""}, {"cells", "Cell", ""},
 		{"motto", "", "motto"}, {"rank", "", ""}, {"dogs", "Dog", ""}, {"ghost", "", ""}, {"nick", "", "nick"}, {"code", "", "code"}},
 	"Dog":      {{"name", "", ""}, {"legs", "", ""}, {"barks", "", ""}, {"owner", "Keeper", ""}, {"code", "", ""}},
@@ -321,6 +321,8 @@ func (g *reqGen) fieldsOf(typ string) []zf {
 			if !g.o.Span {
 				continue
 			}
+		case "chief":
+			continue // only through the fixed AltRequests (plain struct fields)
 		case "nick":
 			if !g.o.Nick {
 				continue
